@@ -304,6 +304,15 @@ class RequestField:
                 if header_value:
                     lines.append(f"{header_name}: {header_value}")
 
+        for line in lines:
+            # Names and filenames are escaped by make_multipart(); everything
+            # else (a content type taken from an upload, say) is written as is
+            # and must not be able to end its line.
+            if "\r" in line or "\n" in line:
+                raise ValueError(
+                    f"Invalid header of a multipart field (CR or LF): {line!r}"
+                )
+
         lines.append("\r\n")
         return "\r\n".join(lines)
 
